@@ -304,12 +304,16 @@ def gen_config(cs, tier='quick', force=None):
     # whatever that leaves behind in the parent is inherited by the workers forked for the run under test
     c['pre_run'] = [None, None, None, 1, 2, 3][cs.choose(6, 'pre_run')]
     c['pre_same_out'] = cs.choose(2, 'pre_same_out') == 1      # the earlier run wrote to the very same result file
+    # the base input file had OTHER content during the earlier run (same path, edited in between)
+    c['pre_other_base'] = bool(c['pre_run']) and cs.choose(3, 'pre_other_base') == 2
     c['settings_out'] = [0, 0, 0, 0, 0, 0, 1, 2][cs.choose(8, 'settings_out')]   # MC_OUTPUT_FILE line (1: alone, 2: plus another path on the command line)
     # sometimes a second, independent Monte-Carlo driver process runs at the same time on the same machine (same temp
     # directory, a base input file with the same name in another project directory, its own settings and result file)
     c['second_driver'] = cs.choose(5, 'second_driver') == 4
     if c['second_driver']:
         c['pre_run'] = None
+        # ...or in the very same project directory, on the very same base input file (own settings and result file)
+        c['second_same_dir'] = cs.choose(2, 'second_same_dir') == 1
         c['np_seed_b'] = cs.choose(1 << 30, 'np_seed_b')
     # delay regime
     ext = c['mode'] == 'extended'
@@ -419,6 +423,15 @@ def settings_text(c):
     return '\n'.join(lines) + '\n'
 
 
+def _other_base_text(c):
+    """another legal base input of the same program (what the file at the same path held during an earlier run)"""
+    if c['program'] == 'hip':
+        return WL.HIP_BASE_2 if base_text(c) == WL.HIP_BASE else WL.HIP_BASE
+    if c['program'] == 'hipold':
+        return WL.HIPOLD_BASE_2 if base_text(c) == WL.HIPOLD_BASE else WL.HIPOLD_BASE
+    return WL.GEO_BASE_2 if base_text(c) == WL.GEO_BASE else WL.GEO_BASE
+
+
 def base_text(c):
     if c.get('special') == 'exclusion_rule':
         return WL.HIP_9999_BASE
@@ -492,6 +505,10 @@ def run_one(payload):
                 stg0 = os.path.join(work, 'mc_settings_pre.txt')
                 with K._real['open'](stg0, 'w') as f0:
                     f0.write(settings_text(dict(c, iterations=c['pre_run'])))
+                if c.get('pre_other_base'):
+                    with K._real['open'](inp, 'w') as f0:
+                        f0.write(_other_base_text(c))
+                    k.touch_path(inp)
                 try:
                     GeophiresMonteCarloClient().get_monte_carlo_result(
                         MonteCarloRequest(prog, Path(inp), Path(stg0),
@@ -500,6 +517,11 @@ def run_one(payload):
                     if isinstance(e, (K.SimFatal, K.ProcKilled)):
                         raise
                     outcome['pre'] = f'raised {type(e).__name__}'
+                if c.get('pre_other_base'):
+                    with K._real['open'](inp, 'w') as f0:
+                        f0.write(base_text(c))
+                    k.touch_path(inp)
+                    k.probes['base_input_edited_between_two_runs_of_one_process'] += 1
                 # only the run under test is analysed
                 k.marks = {'notes': len(k.notes), 'pools': len(k.pools)}
             try:
@@ -529,6 +551,11 @@ def run_one(payload):
             stg_b = os.path.join(work_b, 'mc_settings.txt')
             out_b = os.path.join(work_b, 'MC_Result.txt')
             cb = dict(c, base=(1 - c['base']) if c['base'] in (0, 1) else 2)
+            if c.get('second_same_dir'):
+                os.rmdir(work_b)
+                work_b = work
+                inp_b, stg_b, out_b = inp, os.path.join(work, 'mc_settings_b.txt'), os.path.join(work, 'MC_Result_b.txt')
+                cb = dict(c)
             # a "#" argument resolves against the second driver's own base input
             cb['inputs'] = []
             for i_ in c['inputs']:
@@ -538,8 +565,9 @@ def run_one(payload):
                     if bv is not None:
                         i2['args'][i2['hash_arg']] = bv
                 cb['inputs'].append(i2)
-            with open(inp_b, 'w') as f:
-                f.write(base_text(cb))
+            if inp_b != inp:
+                with open(inp_b, 'w') as f:
+                    f.write(base_text(cb))
             with open(stg_b, 'w') as f:
                 f.write(settings_text(c))
             outcome_b = {}
